@@ -60,10 +60,13 @@ func c11a(c *Ctx, r *Report) {
 								continue
 							}
 							be, ok := unparen(is.Cond).(*ast.BinaryExpr)
-							if !ok || be.Op != token.GTR {
+							if !ok || (be.Op != token.GTR && be.Op != token.LSS) {
 								continue
 							}
 							fa, fb := fieldVar(info, be.X), fieldVar(info, be.Y)
+							if be.Op == token.LSS { // `max < id.Value`
+								fa, fb = fb, fa
+							}
 							if fa != nil && fb != nil && fa.Name() == "Value" && fb.Name() == "idMaxValue" && len(is.Body.List) == 1 {
 								if as, ok := is.Body.List[0].(*ast.AssignStmt); ok && len(as.Lhs) == 1 {
 									if fl := fieldVar(info, as.Lhs[0]); fl != nil && fl.Name() == "idMaxValue" {
@@ -126,6 +129,50 @@ func c11a(c *Ctx, r *Report) {
 			r.Undecided(clause, "R2 ORDER", g.Name+"/literal-tokens-flushed", c.pos(g.Decl.Pos()), "no collection of implicitly declared literals")
 			continue
 		}
+		// the collection may also be handed back as a result: then every caller must append that result to a list
+		handedBack := false
+		{
+			resIdx := -1
+			ast.Inspect(g.Decl.Body, func(n ast.Node) bool {
+				if rs, ok := n.(*ast.ReturnStmt); ok {
+					for k, res := range rs.Results {
+						if identObj(ginfo, res) == local {
+							resIdx = k
+						}
+					}
+				}
+				return true
+			})
+			if resIdx >= 0 {
+				nCallers, nOK := 0, 0
+				for _, cf := range c.AllFuncs() {
+					if cf.Pkg != g.Pkg {
+						continue
+					}
+					ast.Inspect(cf.Decl.Body, func(n ast.Node) bool {
+						as, ok := n.(*ast.AssignStmt)
+						if !ok || len(as.Rhs) != 1 || resIdx >= len(as.Lhs) {
+							return true
+						}
+						call, ok := as.Rhs[0].(*ast.CallExpr)
+						if !ok || callee(ginfo, call) != g.Obj {
+							return true
+						}
+						nCallers++
+						tv := identObj(ginfo, as.Lhs[resIdx])
+						ast.Inspect(cf.Decl.Body, func(m ast.Node) bool {
+							if ap, ok := m.(*ast.CallExpr); ok && builtinName(ginfo, ap) == "append" && len(ap.Args) == 2 && tv != nil && identObj(ginfo, ap.Args[1]) == tv {
+								nOK++
+								return false
+							}
+							return true
+						})
+						return true
+					})
+				}
+				handedBack = nCallers > 0 && nOK >= nCallers
+			}
+		}
 		isFlush := func(n ast.Node) bool {
 			// `*list = append(*list, Tokdef)` possibly guarded by `if len(Tokdef.IdentifyList) != 0`, or an error exit `return nil`
 			found := false
@@ -133,8 +180,15 @@ func c11a(c *Ctx, r *Report) {
 				if call, ok := m.(*ast.CallExpr); ok && builtinName(ginfo, call) == "append" && len(call.Args) == 2 && identObj(ginfo, call.Args[1]) == local {
 					found = true
 				}
-				if be, ok := m.(*ast.BinaryExpr); ok && be.Op == token.NEQ && strings.Contains(exprString(be.X), local.Name()+".IdentifyList") {
+				if be, ok := m.(*ast.BinaryExpr); ok && (be.Op == token.NEQ || be.Op == token.GTR || be.Op == token.LSS) && (strings.Contains(exprString(be.X), local.Name()+".IdentifyList") || strings.Contains(exprString(be.Y), local.Name()+".IdentifyList")) {
 					found = true // the guard of the flush: empty collections need no flush
+				}
+				if rs, ok := m.(*ast.ReturnStmt); ok && handedBack {
+					for _, res := range rs.Results {
+						if identObj(ginfo, res) == local {
+							found = true // handed to the caller, which adds it to the declaration list (checked below)
+						}
+					}
 				}
 				if rs, ok := m.(*ast.ReturnStmt); ok && len(rs.Results) == 1 {
 					if id, ok := rs.Results[0].(*ast.Ident); ok && id.Name == "nil" {
